@@ -6,8 +6,10 @@ def run(ctx):
     rule = ("Each case = one whole scenario (load keys/CAs from PEM, create sessions with expected name, full/resumed/client-auth handshake per version, data both ways, closure, "
             "delete) executed in a fork()ed child with the k-th allocation made inside library API calls failing (link-time --wrap of malloc/calloc/realloc). quick: the first "
             "occurrence of every distinct allocation site (return-address pair) plus 120 seeded k per scenario plus 60 seeded double/triple faults; thorough: every k of every "
-            "scenario plus 3000 multi-fault runs per scenario. 23 scenarios: TLS 1.1/1.2/1.3 and DTLS 1.2, RSA and ECDSA identities, resumption by session id, TLS 1.2 ticket, TLS 1.3 ticket (NewSessionTicket written, parsed and "
-            "redeemed) and PSK, client auth; 13 good-credential and 10 must-fail (untrusted CA, wrong key, wrong name) scenarios. distinct_nontrivial = distinct "
+            "scenario plus 3000 multi-fault runs per scenario. 25 scenarios: TLS 1.1/1.2/1.3 and DTLS 1.2, RSA and ECDSA identities, resumption by session id, TLS 1.2 ticket, TLS 1.3 ticket (NewSessionTicket written, parsed and "
+            "redeemed) and PSK, client auth, and (TLS 1.2 and DTLS 1.2) a stale RFC 5077 ticket: a priming connection that is neither counted nor faulted leaves a ticket in the "
+            "client's session id, the server's ticket key is rotated, and the fault-injected connection presents the old ticket, gets a full handshake and a replacement ticket; "
+            "the session id is deleted at the end of every scenario; 15 good-credential and 10 must-fail (untrusted CA, wrong key, wrong name) scenarios. distinct_nontrivial = distinct "
             "(scenario, fault ordinals) whose fault was actually reached.")
     return vflib.std_run(ctx, st, "fault_enumeration", rule,
         ["allocations inside libc (fopen, getaddrinfo) are not failed", "LeakSanitizer decides the no-leak clause at the end of each child"], min_nontrivial=500)
